@@ -294,6 +294,18 @@ def enumeration_rule(ctx, rid):
     else:
         rr.ok("filter: every location passes the test once; yielded once, in order, on the missing branch only")
     p = prog.need_func(CASE + ".parse_into_cases")
+    from ..util import store_polarity
+    for par_ in [x for x in ("combos", "cases") if x in p.params]:
+        sn, sg = store_polarity(p, par_, par_)
+        if (sn, sg) == (True, False):
+            rr.ok("parse_into_cases: `%s` is replaced by its neutral element exactly when it is omitted" % par_)
+        elif (sn, sg) == (False, True):
+            rr.bad(ctx.finding(rid, p, p.node, "parse_into_cases replaces `%s` by its neutral element when it *is* given (and keeps None when it is omitted): the requested %s are ignored, so locations that were asked about are never tested or reported" % (par_, par_),
+                               construct="default-polarity " + par_), "default of %s" % par_)
+        elif (sn, sg) == (False, False):
+            pass
+        else:
+            raise AnalysisError("idiom changed: defaulting of `%s` in parse_into_cases" % par_)
     ctx.touch(p)
     pg = build_cfg(p.node)
     fl = Flow(pg, {"ds": ("obj", "ds")}).run()
